@@ -11,3 +11,11 @@ def plans(tier):
     sim = [dict(cfg="B", depth=16, maxtime=12, alpha=["cea", "dpr", "dwa", "req"], num=400 if th else 60, maxconn=6),
            dict(cfg="D", depth=16, maxtime=14, alpha=["cea", "dpr", "dwa"], num=400 if th else 60, maxconn=6)]
     return mc, sim
+
+def enum_plans(tier):
+    th = tier == "thorough"
+    # every history over {tick, connect result ok/fail, CEA, DPR, remote close}: reconnect timing at every offset
+    return [dict(cfg="B", depth=7 if th else 6, maxtime=7 if th else 6, alpha=["ceaok", "dpr"], faults=True, maxconn=3),
+            dict(cfg="D", depth=7 if th else 6, maxtime=7 if th else 6, alpha=["ceaok", "dpr"], faults=True, maxconn=3),
+            # a DPR while a watchdog request is outstanding, and a late DWA after the DPA
+            dict(cfg="B", depth=8 if th else 7, maxtime=5 if th else 4, alpha=["ceaok", "dpr", "dwa"], faults=False, maxconn=1)]
